@@ -1,7 +1,8 @@
 """C16 -- rules generated from logs cover the logged access.
 
-Records : every file operation x 10 masks x 3 uid relations x 2 qualifiers over a name alphabet (home, system,
-          /proc, /sys, /run, udev, pci, uuid/hex/number-bearing, case twins; 49 names quick, 81 thorough), exec and
+Records : every file operation x 13 masks (incl. ac, rac, wa) x 3 uid relations x 2 qualifiers over a name alphabet (home, system,
+          /proc, /sys, /run, udev, pci, uuid/hex/number-bearing, case twins; 49 names quick, 81 thorough), names ending in / containing a digit or hex
+          run of every length 1..40 (thorough 1..100; ascending digits, one repeated digit, mixed hex), exec and
           link with targets, 27 records of the other classes, and pairs that differ in exactly one aspect.
 Pipeline: the real logs.New -> ParseToProfiles -> Merge/Sort/Format -> String (engine/gox/cmd/c16x), as
           `aa-log --rules` runs it.
